@@ -89,7 +89,7 @@ def check_bins(res, x, y, fs, cfg, mode, idxs, viol, where):
         ref = refs.dft_stats(x, y, D, L, w, om, cfg["order"])
         Sx = tol.seg_scale(x, D, L, w, cfg["order"])
         Sy = Sx if y is None else tol.seg_scale(y, D, L, w, cfg["order"])
-        Sxy = (Sx * Sy) ** 0.5
+        Sxy = (Sx ** 0.5 * Sy ** 0.5)
         bx, by, bxy = tol.budget2(L, om, Sx), tol.budget2(L, om, Sy), tol.budget2(L, om, Sxy)
         b4 = tol.budget4(L, om, Sx, Sy)
         XY = complex(res.XY[j])
